@@ -31,10 +31,14 @@ theorem setters_redirect :
     Facts.C03.setterSkel.all (fun e => e.2.1) = true ∧
     "prepareCell" ∈ Facts.C03.redirectCallers ∧ "getCellStringFunc" ∈ Facts.C03.redirectCallers := by decide
 
-/-- clause "reads back exactly the last payload": the typed value setters and
-SetCellDefault drop a previous formula -/
-theorem value_setters_remove_formula :
-    ∀ k ∈ [Setter.int, .uint, .bool, .float, .str, .dflt], k.removesFormula = true := by decide
+/-- clause "reads back exactly the last payload": every value setter drops a previous formula
+(for `setCellTimeFunc` and `SetCellRichText` since the fix recorded in known_findings.d/C03.json) -/
+theorem value_setters_remove_formula : ∀ k : Setter, k.removesFormula = true := by
+  intro k; cases k <;> decide
+
+/-- … so after any value write the addressed anchor cell holds no formula -/
+theorem write_clears_formula (k : Setter) (p : Payload) (v : CellV) : (writeCell k p v).f = none := by
+  simp [writeCell, value_setters_remove_formula k]
 
 /-- the typed value setters drop a previous inline string -/
 theorem typed_setters_clear_inline :
@@ -324,13 +328,6 @@ theorem finding_isOverlap_misses_cross :
     (⟨2, 1, 2, 3⟩ : Rect).contains 2 2 = true ∧ (⟨1, 2, 3, 2⟩ : Rect).contains 2 2 = true ∧
     (run {} [.merge 1 2 3 2, .unmerge 2 1 2 3]).merges = [rA 1 2 3 2] := by
   refine ⟨by decide +kernel, by decide +kernel, by decide +kernel, by decide +kernel⟩
-
-/-- FINDING: `setCellTimeFunc` and `SetCellRichText` do not call `removeFormula` (facts), so a
-time / rich-text value written over a formula cell keeps the overwritten formula. -/
-theorem finding_formula_survives :
-    Setter.time.removesFormula = false ∧ Setter.rich.removesFormula = false ∧
-    ((abs (run {} [.formula 1 1 "312b31", .set .time 1 1 (.num "3435")])).g 1 1).f = some "312b31" := by
-  refine ⟨by decide, by decide, by decide +kernel⟩
 
 /-- FINDING: `SetCellValue(time.Time)` on B2 inside the merged range A1:B2 stores the value at
 the anchor A1 but `setDefaultTimeStyle` (GetCellStyle + SetCellStyle on the spelling, no
